@@ -47,10 +47,26 @@ def gen_history(rng, case, maxlen):
     ops = []
     c = copy.deepcopy(case)   # running final specification
     N = c["method"]["N"]
-    for _ in range(rng.randint(2, maxlen)):
+    nsteps = rng.randint(2, maxlen)
+    npre = rng.choice([0, 1, 2, nsteps - 1, nsteps - 1])      # often the last operations: no later edit re-transcribes
+    for step in range(nsteps):
         r = rng.random()
+        gvs0 = [o_ for o_ in c10.objects(c) if o_["g"] == "GV" and o_["len"] == 1]
+        objs0 = [o_ for o_ in c10.objects(c) if o_["g"] in (("GU",) if c["method"]["kind"] == "SS" else ("GX", "GU")) and o_["len"] == 1]
+        if step == npre and gvs0 and objs0 and rng.random() < 0.6:
+            # a guess that mentions a global variable, a query, then a new guess for that variable
+            gv, o = rng.choice(gvs0), rng.choice(objs0)
+            call = {"obj": [o["kind"], o["idx"]], "g": o["g"], "slot": o["slot"], "len": 1, "form": "dep",
+                    "coef": jq(gen.dyadic_nz(rng, -2, 2, 1)), "var": [gv["kind"], gv["idx"]], "after": False}
+            call2 = {"obj": [gv["kind"], gv["idx"]], "g": "GV", "slot": gv["slot"], "len": 1, "form": "const",
+                     "value": jq(dyadic(rng, -3, 3, 2)), "after": False}
+            ops += [["set_initial", call], [rng.choice(["sample", "solve", "value"])], ["set_initial", call2]]
+            c.setdefault("calls", []).extend([call, call2])
+            continue
         if r < 0.25:
-            ops.append([rng.choice(["sample", "value", "jacobian", "solve", "sample"])])
+            # 'sol_sample': a query on the solution object of an earlier solve (not an operation on the OCP: the
+            # next solve must honour the edits made since, whether or not the old solution can still be read)
+            ops.append([rng.choice(["sample", "value", "jacobian", "solve", "sample", "solve", "sol_sample", "sol_sample"])])
         elif r < 0.30 and len(global_param_decls(c)) >= 2:
             # two global parameters set through one concatenated symbol
             gd = global_param_decls(c)
@@ -124,14 +140,39 @@ def gen_history(rng, case, maxlen):
             o = rng.choice(objs)
             call = {"obj": [o["kind"], o["idx"]], "g": o["g"], "slot": o["slot"], "len": o["len"], "form": "const",
                     "value": jq(dyadic(rng, -3, 3, 2)), "after": False}
+            # guesses that depend on a global variable, and new guesses for that variable: every stored guess is
+            # an expression that the next solve evaluates with the current guesses of the symbols it mentions
+            gvs = [o_ for o_ in c10.objects(c) if o_["g"] == "GV" and o_["len"] == 1]
+            if gvs and rng.random() < 0.5:
+                gv = rng.choice(gvs)
+                if rng.random() < 0.5:
+                    call = {"obj": [gv["kind"], gv["idx"]], "g": "GV", "slot": gv["slot"], "len": 1, "form": "const",
+                            "value": jq(dyadic(rng, -3, 3, 2)), "after": False}
+                elif o["len"] == 1:      # (a scalar expression is not broadcast over a vector state by DirectCollocation: raises)
+                    call = dict(call, form="dep", coef=jq(gen.dyadic_nz(rng, -2, 2, 1)), var=[gv["kind"], gv["idx"]])
             ops.append(["set_initial", call])
             c.setdefault("calls", []).append(call)
+            if call["form"] == "dep" and rng.random() < 0.7:
+                # ... and, after a query, a new guess for the variable the stored guess mentions
+                ops.append([rng.choice(["sample", "solve", "value"])])
+                call2 = {"obj": list(call["var"]), "g": "GV", "slot": gv["slot"], "len": 1, "form": "const",
+                         "value": jq(dyadic(rng, -3, 3, 2)), "after": False}
+                ops.append(["set_initial", call2])
+                c["calls"].append(call2)
+    if rng.random() < 0.15:
+        # the options are withdrawn: solver('ipopt') without an options argument (last operation: no solve follows)
+        ops.append(["solver", ["ipopt"]])
+        c["solver"] = ["ipopt", {}]
     return ops, c
 
 
 def apply_call(B, ocp, call):
     kind, idx = call["obj"]
-    ocp.set_initial(B.objs[kind][idx], float(Fr(call["value"])))
+    if call.get("form") == "dep":
+        vk, vi = call["var"]
+        ocp.set_initial(B.objs[kind][idx], float(Fr(call["coef"])) * B.objs[vk][vi])
+    else:
+        ocp.set_initial(B.objs[kind][idx], float(Fr(call["value"])))
 
 
 def observe_nlp(B, case, points, rockit):
@@ -180,6 +221,7 @@ def worker(args):
             out["inputs"] = engine.impl_inputs(B, case_final) if False else None
             flags = []
             decl0 = None
+            last_sol = None
             for op in ops:
                 k = op[0]
                 if k == "sample":
@@ -190,10 +232,16 @@ def worker(args):
                     master.jacobian()
                 elif k == "solve":
                     try:
-                        master.solve_limited()
+                        last_sol = master.solve_limited()
                     except RuntimeError as e_:
                         if "Solver failed" not in str(e_) and "return_success" not in str(e_):
                             raise
+                elif k == "sol_sample":
+                    if last_sol is not None:
+                        try:
+                            (last_sol(ocp) if hosted else last_sol).sample(B.S["x"][0], grid="control")
+                        except Exception:
+                            pass      # an outdated solution may refuse to be read
                 elif k == "set_value":
                     ocp.set_value(B.S["p"][op[1]], float(Fr(op[2])))
                 elif k == "set_value_cat":
@@ -271,7 +319,7 @@ def model_flags(all_ops):
     cls = {"sample": "HQuery unit unit", "value": "HQuery unit unit", "jacobian": "HQuery unit unit", "solve": "HQuery unit unit",
            "set_value": "HUpd unit unit tt", "set_value_cat": "HUpd unit unit tt", "set_initial": "HUpd unit unit tt"}
     for ops in all_ops:
-        o = "[" + "; ".join(cls.get(op[0], "HEdit unit unit tt") for op in ops if op[0] != "poke_method") + "]"
+        o = "[" + "; ".join(cls.get(op[0], "HEdit unit unit tt") for op in ops if op[0] not in ("poke_method", "sol_sample")) + "]"
         lines.append("Eval vm_compute in (flags_of %s).\n" % o)
     hdr = coqrun.HEADER + """From RV Require Import Mech.History.
 Definition st := hstep unit unit unit unit (fun s _ => s) (fun s _ => s) (fun s => s) (fun n _ => n).
@@ -328,7 +376,7 @@ def run_items(items, name, jobs=16):
                 d = [{"what": "rockit raised on a history whose final specification a fresh OCP might transcribe",
                       "error": r["error"], "trace": r.get("trace")}]
         else:
-            rflags = [f for f, op in zip(r["flags"], ops) if op[0] != "poke_method"]
+            rflags = [f for f, op in zip(r["flags"], ops) if op[0] not in ("poke_method", "sol_sample")]
             if [bool(x) for x in mf] != rflags:
                 d = [{"what": "transcription flag after each operation differs from the lazy-cache automaton",
                       "rockit": rflags, "model": [bool(x) for x in mf], "ops": [o[0] for o in ops]}]
